@@ -226,6 +226,7 @@ Qed.
    cost is c / s for integers ci cd cs over any common denominator s; [TieMath.zf s v] is the
    float v / s; [TieLib.runs_to P o]: the run o ends normally in a state satisfying P.
    ====================================================================================== *)
+From Coq Require QArith.
 From PV Require MiniPy.Syntax MiniPy.Interp MiniTorch.OpsC07 MiniTorch.OpsC01 C01.SrcRun C01.TieLib C01.TieMath
   C01.TieLoop C01.TieWhole C01.Tie.
 
@@ -313,7 +314,8 @@ Example c01_source_nonvacuous :
   let hyp := [[1; 9; 7]; [2; 2; 2]; [3; 9; 9]] in
   Tie.wf_src (c_bf c) 3 4 ref /\ Tie.wf_src (c_bf c) 3 3 hyp /\
   SrcRun.src_ed SrcRun.sm_blocks c 4 3 ref hyp
-  = Some (Some [MiniTorch.OpsC01.Fq (1 # 3)%Q; MiniTorch.OpsC01.Fq (5 # 2)%Q; MiniTorch.OpsC01.Fq (7 # 8)%Q]).
+  = Some (Some [MiniTorch.OpsC01.Fq (QArith_base.Qmake 1 3); MiniTorch.OpsC01.Fq (QArith_base.Qmake 5 2);
+                MiniTorch.OpsC01.Fq (QArith_base.Qmake 7 8)]).
 Proof.
   cbv zeta. split; [split; [reflexivity|intros row [<-|[<-|[<-|[]]]]; reflexivity]|].
   split; [split; [reflexivity|intros row [<-|[<-|[<-|[]]]]; reflexivity]|].
